@@ -25,12 +25,14 @@ CONSTANTS Accts,      \* {"r1","r2","tss","out"}
           Methods,    \* privileged contract methods
           Paths,      \* call paths of an unprivileged caller
           MaxSeq, MaxUpd,
-          Counter(_, _)   \* Counter(r, c): the counterparty address registered for relayer r on chain c (distinct per pair)
+          Vers,           \* address versions a registration may carry, e.g. {1, 2}
+          Counter(_, _, _)   \* Counter(r, c, v): the v-th counterparty address governance registers for relayer r on chain c
 
 TssChain == "tss"
 TssAcct == "tss"
 
 VARIABLES reg,       \* reg[a] = set of chains account a is registered for
+          ver,       \* ver[a] = which of its counterparty addresses the current registration of a carries (a re-registration may change it)
           upd,       \* upd[c] = number of accepted updates of client c
           rcpt,      \* set of <<chain, seq>> received
           ackrel,    \* ackrel[<<chain, seq>>] = relayer field of the written acknowledgement
@@ -39,21 +41,21 @@ VARIABLES reg,       \* reg[a] = set of chains account a is registered for
           paid,      \* paid[seq] = account the fee of packet seq went to
           priv,      \* abstract privileged contract state: number of effects of privileged methods by non-modules
           last
-stateVars == <<reg, upd, rcpt, ackrel, sent, acked, paid, priv>>
+stateVars == <<reg, ver, upd, rcpt, ackrel, sent, acked, paid, priv>>
 vars == <<stateVars, last>>
 
-Init == /\ reg = [a \in Accts |-> {}] /\ upd = [c \in Chains |-> 0] /\ rcpt = {} /\ ackrel = <<>>
+Init == /\ reg = [a \in Accts |-> {}] /\ ver = [a \in Accts |-> 1] /\ upd = [c \in Chains |-> 0] /\ rcpt = {} /\ ackrel = <<>>
         /\ sent = 0 /\ acked = {} /\ paid = <<>> /\ priv = 0
         /\ last = [act |-> "Init", res |-> "ok"]
 
 Res(ok) == IF ok THEN "ok" ELSE "err"
 
 (* governance: the proposal replaces the account's entry *)
-RegisterEff(a, cs) == reg' = [reg EXCEPT ![a] = cs] /\ UNCHANGED <<upd, rcpt, ackrel, sent, acked, paid, priv>>
-Register(a, cs) == cs # {} /\ RegisterEff(a, cs) /\ last' = [act |-> "Register", res |-> "ok", r |-> a, chains |-> cs]
+RegisterEff(a, cs, v) == reg' = [reg EXCEPT ![a] = cs] /\ ver' = [ver EXCEPT ![a] = v] /\ UNCHANGED <<upd, rcpt, ackrel, sent, acked, paid, priv>>
+Register(a, cs, v) == cs # {} /\ RegisterEff(a, cs, v) /\ last' = [act |-> "Register", res |-> "ok", r |-> a, chains |-> cs, v |-> v]
 
 UpdateOK(a, c) == c \in reg[a] /\ (c = TssChain => a = TssAcct)
-UpdateEff(a, c) == IF UpdateOK(a, c) THEN upd' = [upd EXCEPT ![c] = @ + 1] /\ UNCHANGED <<reg, rcpt, ackrel, sent, acked, paid, priv>>
+UpdateEff(a, c) == IF UpdateOK(a, c) THEN upd' = [upd EXCEPT ![c] = @ + 1] /\ UNCHANGED <<reg, ver, rcpt, ackrel, sent, acked, paid, priv>>
                    ELSE UNCHANGED stateVars
 Update(a, c) == upd[c] < MaxUpd /\ UpdateEff(a, c) /\ last' = [act |-> "Update", res |-> Res(UpdateOK(a, c)), signer |-> a, chain |-> c]
 
@@ -62,24 +64,24 @@ RecvOK(a, c, seq) == c = TssChain /\ a = TssAcct /\ c \in reg[a] /\ <<c, seq>> \
 RecvEff(a, c, seq) ==
   IF RecvOK(a, c, seq)
   THEN /\ rcpt' = rcpt \cup {<<c, seq>>}
-       /\ ackrel' = (<<c, seq>> :> Counter(a, c)) @@ ackrel
-       /\ UNCHANGED <<reg, upd, sent, acked, paid, priv>>          \* privileged call data has no privileged effect
+       /\ ackrel' = (<<c, seq>> :> Counter(a, c, ver[a])) @@ ackrel
+       /\ UNCHANGED <<reg, ver, upd, sent, acked, paid, priv>>          \* privileged call data has no privileged effect
   ELSE UNCHANGED stateVars
 (* pf: what the sender put into the proof field ("junk" or the TSS account's address as bytes): it never matters for *)
 (* a TSS client, whose proof is the signer                                                                          *)
 Recv(a, c, seq, call, pf) == seq \in 1..MaxSeq /\ RecvEff(a, c, seq)
                          /\ last' = [act |-> "Recv", res |-> Res(RecvOK(a, c, seq)), signer |-> a, chain |-> c, seq |-> seq, call |-> call, proof |-> pf]
 
-Send == /\ sent < MaxSeq /\ sent' = sent + 1 /\ UNCHANGED <<reg, upd, rcpt, ackrel, acked, paid, priv>>
+Send == /\ sent < MaxSeq /\ sent' = sent + 1 /\ UNCHANGED <<reg, ver, upd, rcpt, ackrel, acked, paid, priv>>
         /\ last' = [act |-> "Send", res |-> "ok"]
 
 (* an acknowledgement for packet seq sent to the TSS chain, naming rel = <<r, c>> as relayer *)
-Payee(rel) == { r \in Accts : TssChain \in reg[r] /\ rel = Counter(r, TssChain) }
+Payee(rel) == { r \in Accts : TssChain \in reg[r] /\ rel = Counter(r, TssChain, ver[r]) }
 AckOK(a, seq, rel) == seq \in 1..sent /\ seq \notin acked /\ a = TssAcct /\ Payee(rel) # {}
 AckEff(a, seq, rel) ==
   IF AckOK(a, seq, rel)
   THEN /\ acked' = acked \cup {seq} /\ paid' = (seq :> CHOOSE r \in Payee(rel) : TRUE) @@ paid
-       /\ UNCHANGED <<reg, upd, rcpt, ackrel, sent, priv>>
+       /\ UNCHANGED <<reg, ver, upd, rcpt, ackrel, sent, priv>>
   ELSE UNCHANGED stateVars
 Ack(a, seq, rel, pf) == AckEff(a, seq, rel) /\ last' = [act |-> "Ack", res |-> Res(AckOK(a, seq, rel)), signer |-> a, seq |-> seq, rel |-> rel, proof |-> pf]
 
@@ -87,8 +89,8 @@ Ack(a, seq, rel, pf) == AckEff(a, seq, rel) /\ last' = [act |-> "Ack", res |-> R
 Priv(path, m) == UNCHANGED stateVars /\ last' = [act |-> "Priv", res |-> "err", path |-> path, method |-> m]
 
 Proofs == {"junk", "tssaddr"}
-Rels == {Counter(r, TssChain) : r \in Accts} \cup {Counter("nobody", TssChain)}
-Next == \/ \E a \in Accts, cs \in SUBSET Chains : Register(a, cs)
+Rels == {Counter(r, TssChain, v) : r \in Accts, v \in Vers} \cup {Counter("nobody", TssChain, 1)}
+Next == \/ \E a \in Accts, cs \in SUBSET Chains, v \in Vers : Register(a, cs, v)
         \/ \E a \in Accts, c \in Chains : Update(a, c)
         \/ \E a \in Accts, c \in Chains, s \in 1..MaxSeq, m \in Methods \cup {"none"}, pf \in Proofs : Recv(a, c, s, m, pf)
         \/ Send
@@ -102,9 +104,10 @@ Accepted(k) == last'.act = k /\ last'.res = "ok"
 OnlyRegistered == [][(Accepted("Update") \/ Accepted("Recv")) => last'.chain \in reg[last'.signer]]_vars
 TssOnly == [][((Accepted("Update") \/ Accepted("Recv")) /\ last'.chain = TssChain) \/ Accepted("Ack") => last'.signer = TssAcct]_vars
 NothingForOtherChains == [][(Accepted("Update") \/ Accepted("Recv")) => \A c \in Chains \ {last'.chain} : upd'[c] = upd[c] /\ {x \in rcpt' : x[1] = c} = {x \in rcpt : x[1] = c}]_vars
-AckRelayerField == \A x \in DOMAIN ackrel : \E r \in Accts : ackrel[x] = Counter(r, x[1])
-AckRelayerIsSubmitter == [][Accepted("Recv") => ackrel'[<<last'.chain, last'.seq>>] = Counter(last'.signer, last'.chain)]_vars
-FeeToRegistered == [][Accepted("Ack") => (TssChain \in reg[paid'[last'.seq]] /\ last'.rel = Counter(paid'[last'.seq], TssChain))]_vars
+AckRelayerField == \A x \in DOMAIN ackrel : \E r \in Accts, v \in Vers : ackrel[x] = Counter(r, x[1], v)
+(* the address of the CURRENT registration of the submitter, also after a re-registration with another address *)
+AckRelayerIsSubmitter == [][Accepted("Recv") => ackrel'[<<last'.chain, last'.seq>>] = Counter(last'.signer, last'.chain, ver[last'.signer])]_vars
+FeeToRegistered == [][Accepted("Ack") => (TssChain \in reg[paid'[last'.seq]] /\ last'.rel = Counter(paid'[last'.seq], TssChain, ver[paid'[last'.seq]]))]_vars
 PrivNeverActs == [][priv' = priv]_vars
 RejectChangesNothing == [][last'.res = "err" => UNCHANGED stateVars]_vars
 NeverRegisteredNeverActs == [][(reg["out"] = {} /\ last'.act \in {"Update", "Recv", "Ack"} /\ last'.signer = "out") => last'.res = "err"]_vars
